@@ -25,7 +25,7 @@ fn ctx(d: i64) -> context::Context {
     c
 }
 
-pub const MAXB: usize = 4;
+pub const MAXB: usize = 6;
 static mut HITS: [u32; MAXB] = [0; MAXB];
 static mut LAST_REQ: [u32; MAXB] = [0; MAXB];
 static mut LAST_DL: [i64; MAXB] = [0; MAXB];
@@ -108,7 +108,7 @@ impl std::hash::BuildHasher for SymBuild {
 }
 
 // ---- retry backend: i-th call answers with the i-th symbolic result
-pub const MAXA: usize = 5;
+pub const MAXA: usize = 8;
 static mut RES_OK: [bool; MAXA + 1] = [false; MAXA + 1];
 static mut RES_VAL: [u32; MAXA + 1] = [0; MAXA + 1];
 static mut RCALLS: usize = 0;
@@ -329,4 +329,11 @@ harnesses! {
     fn retry_ok_a1() [unwind 3] { retry(RB, 1, false) }
     fn retry_ok_a3() [unwind 5] { retry(RB, 3, false) }
     fn retry_ok_a5() [unwind 7] { retry(RB, 5, false) }
+    // ---- thorough tier: deeper bounds
+    fn rr_seq_n5_deep() [unwind 18] { rr_sequential(5, 16) }
+    fn rr_seq_n6_deep() [unwind 18] { rr_sequential(6, 16) }
+    fn rr_conc_n4_deep() [unwind 10] { rr_concurrent(4) }
+    fn ch_eq_n5_deep() [unwind 8] { ch_equal(5) }
+    fn ch_eq_n6_deep() [unwind 8] { ch_equal(6) }
+    fn retry_ok_a7_deep() [unwind 9] { retry(RB, 7, false) }
 }
